@@ -12,7 +12,8 @@ import (
 )
 
 var warnAnyRe = regexp.MustCompile(`(?im)^.*(warning|conflic).*$`)
-var warnRe = regexp.MustCompile(`warning: has the conflic (\d+), sym (\d+), conflict Type (\w+), (\w+)  use default resolve`)
+// the numbers and the two action kinds are what the check reads; spelling and spacing of the words around them may vary
+var warnRe = regexp.MustCompile(`(?i)warning:?\s+has\s+the\s+conflict?\s+(\d+),\s*sym\s+(\d+),\s*conflict\s+Type\s+(\w+),\s*(\w+)`)
 
 func classify(err error, pv interface{}) (string, string) {
 	if err != nil {
